@@ -5,7 +5,7 @@ import Rangers.Model.Ledger
 Line-protocol driver for C06 (ledger conservation).
 
   reset
-  cfg <height> <p002> <p015> <p017> <p018> <p026> <p027> <label>   fork flags (as the code reports them) and base height
+  cfg <height> <p002> <p015> <p017> <p018> <p026> <p027> [<p014>] <label>   fork flags (as the code reports them) and base height
   univ <addr>*                         addresses whose balances every `exec` answer lists
   set <addr> <dec>                     AccountDB.SetBalance
   init <id> <script>                   creation-code behaviour, referenced by `cr:<val>:<id>` and `tx ct`
@@ -16,6 +16,7 @@ Line-protocol driver for C06 (ledger conservation).
   tx add <src> <id> <delta>                                MinerAdd (type 5)
   tx refund <src> <id> <amountHex> <signed>                MinerRefund (type 3)
   tx node <src> <newAccount> <mainOk>                      OperatorNode (type 7)
+  tx chacc <src> <id> <newAccount>                         MinerChangeAccount (type 6)
   exec                                 run the queued transactions as one block
   refund <k> (<addr> <dec>)*k          RefundManager.CheckAndMove over that escrow list
   after <h> <k> (<h_i> <addr> <dec>)*k VMExecutor.after at height h: escrow += entries, then CheckAndMove(h)
@@ -117,6 +118,7 @@ def txOutside : Tx → Bool
   | .addStake _ _ _ => false
   | .refund _ _ _ _ => false
   | .node _ _ _ => false
+  | .changeAccount _ _ _ => false
 
 instance : BEq Amount := ⟨fun a b => decide (a = b)⟩
 
@@ -165,6 +167,11 @@ def parseTx (ds : DS) : List String → Option Tx
       if cs.isEmpty || !cs.all isDigit then none
       else if digitsVal cs ≤ uint64Max then some (digitsVal cs) else none
     pure (.refund src id a signed)
+  | ["chacc", src, id, acct] => do
+    let src ← addr? src
+    let id ← nat? id
+    let acct ← addr? acct
+    pure (.changeAccount src id acct)
   | ["node", src, acct, ok] => do
     let src ← addr? src
     let acct ← addr? acct
@@ -185,6 +192,12 @@ def showState (ds : DS) : String :=
 def step (ds : DS) (line : String) : DS × String :=
   match splitWords line with
   | ["reset"] => (initDS, "ok")
+  | ["cfg", h, a, b, c, d, e, f, g, _] =>
+    match nat? h, bool? a, bool? b, bool? c, bool? d, bool? e, bool? f, bool? g with
+    | some h, some a, some b, some c, some d, some e, some f, some g =>
+      ({ ds with height := h,
+                 w := { ds.w with fl := { p002 := a, p015 := b, p017 := c, p018 := d, p026 := e, p027 := f, p014 := g } } }, "ok")
+    | _, _, _, _, _, _, _, _ => (ds, "bad-op")
   | ["cfg", h, a, b, c, d, e, f, _] =>
     match nat? h, bool? a, bool? b, bool? c, bool? d, bool? e, bool? f with
     | some h, some a, some b, some c, some d, some e, some f =>
